@@ -76,6 +76,7 @@ var properties = map[string][]harnessSpec{
 		{Name: "astconv.VerifC05KeyChange", Marks: []string{"end", "carrier-rejected"}},
 	},
 	"C04": {
+		{Name: "cmd.VerifC04HugeText", Quick: map[string]int{"C04.hugeKiB": 1100, "C04.hugeFillers": 1}, Thorough: map[string]int{"C04.hugeKiB": 2200, "C04.hugeFillers": 3}, Marks: end},
 		{Name: "input/ast.VerifC04Parser", Quick: map[string]int{"C04.maxTokens": 8}, Thorough: map[string]int{"C04.maxTokens": 10}, Marks: []string{"end", "accepted", "rejected", "bad-token"}},
 		{Name: "input/ast.VerifC04ScanToken", Quick: map[string]int{"C04.window": 5}, Thorough: map[string]int{"C04.window": 6}, Marks: []string{"end", "token", "eof"}, MustTerminate: true},
 		{Name: "input/ast.VerifC04ScanToken", Quick: map[string]int{"C04.window": 3, "C04.wide": 1}, Thorough: map[string]int{"C04.window": 4, "C04.wide": 1}, Marks: []string{"end", "token", "eof"}, MustTerminate: true},
@@ -156,6 +157,7 @@ var properties = map[string][]harnessSpec{
 	"C08": {
 		{Name: "midix.VerifC08File", Quick: map[string]int{"C08.maxOps": 2, "C08.maxTracks": 2, "C08.maxKeys": 2}, Thorough: map[string]int{"C08.maxOps": 2, "C08.maxTracks": 3, "C08.maxKeys": 2}, Marks: end},
 		{Name: "midix.VerifC08TrackCountLimit", Marks: end},
+		{Name: "cmd.VerifC08LongDurations", Marks: []string{"refused", "written"}},
 		{Name: "cmd.VerifC08WriteCmd", Quick: map[string]int{"C08.cmdTracks": 4}, Thorough: map[string]int{"C08.cmdTracks": 8}, Marks: end},
 		{Name: "midix.VerifC02NoteStep", Quick: map[string]int{"C02.maxTracks": 3, "C02.maxKeys": 3}, Thorough: map[string]int{"C02.maxTracks": 4, "C02.maxKeys": 5}, Marks: end},
 		{Name: "midix.VerifC06CloseStep", Quick: map[string]int{"C06.maxTracks": 8}, Thorough: map[string]int{"C06.maxTracks": 32}, Marks: end},
